@@ -1,3 +1,4 @@
 pub mod enc;
 pub mod docgen;
 pub mod rawpdf;
+pub mod pnggen;
